@@ -180,8 +180,8 @@ def run(prop, tier, seed, t0):
     bins, notes, failed = plan.bins_for(cfgs, profiles)
     if failed:
         return plan.fail_build(prop, failed)
-    size = 400 if tier == 'quick' else 12000
-    nt = 8 if tier == 'quick' else 16
+    size = 400 if tier == 'quick' else 96000
+    nt = 8 if tier == 'quick' else 64
     tasks = plan.spread_tasks('vlib.props.c02', 'task', prop, seed, size, plan.plain(bins), ntasks=nt)
     m = core.run_tasks(tasks)
     return core.finish(prop, tier, seed, t0, m,
